@@ -1,6 +1,7 @@
 import TextxVerif.Wire
 import TextxVerif.Out.GenFile
 import TextxVerif.Out.GenFileOps
+import TextxVerif.Out.GenFileFaults
 /-! Driver for the gen_file / export crash model (C31).
 op:
   {"op":"history","algo":"new"|"pinned",
@@ -13,6 +14,12 @@ op:
   optional "ops":true: every step also carries "ops": null (skipped) | {"n":k,"last":op,"midSame":b,"lastSame":b} — the
      number of primitive operations of the export, the last one (["replace",src,dst] | ["remove",p], p = "out:n" |
      "tmp:n"), whether the run's output file is as before the run after each operation but the last, and after the last
+  optional "persist":b (with "algo":"new"): every run's export is run under the failure *schedule* of the fault
+     injection (`exportMode`: the named call fails; when b, every write and flush / close after it fails too) instead
+     of the single crash point (= "new" by `C31_persistent`)
+  optional "init":[{"path":n,"content":null|[c…],"tmp":b}…]: the directory the history starts from (default: empty) —
+     output file n holds the complete pieces c… (a file that was there before: hand-made, the destination of a link,
+     …), "tmp": a stale temporary sibling exists.  Paths no run is for may be listed (and observed through "paths").
 -/
 open Lean Wire GenFile
 
@@ -72,15 +79,29 @@ def opsInfoJson : Option OpsInfo → Json
       ("midSame", Json.bool i.midOnly),
       ("lastSame", Json.bool i.lastSame)]
 
+def parseInit (j : Json) : Option (Nat × Option Content × Bool) := do
+  let p ← getNat? j "path"
+  let c ← match j.getObjVal? "content" with
+    | .ok Json.null => some none
+    | .ok _ => (getNatList? j "content").map fun cs => some (fullContent cs)
+    | .error _ => none
+  let t ← getBool? j "tmp"
+  pure (p, c, t)
+
+def initFS (es : List (Nat × Option Content × Bool)) : FS :=
+  es.foldl (fun fs (p, c, t) => (fs.set (.out p) c).set (.tmp p) (if t then some [.part 0] else none)) FS.empty
+
 def handle (j : Json) : Json :=
   match getStr? j "op" with
   | some "history" =>
     let exp? : Option (FS → Path → List Nat → Crash → FS × Bool) :=
-      match getStr? j "algo" with
-      | some "new" => some exportNew
-      | some "pinned" => some exportPinned
-      | some "ops" => some exportOps
-      | _ => none
+      match getStr? j "algo", j.getObjVal? "persist" with
+      | some "new", .error _ => some exportNew
+      | some "new", .ok _ => (getBool? j "persist").map exportMode
+      | some _, .ok _ => none
+      | some "pinned", _ => some exportPinned
+      | some "ops", _ => some exportOps
+      | _, _ => none
     -- "ops" is optional; when the key is present it must be a boolean
     let wantOps? : Option Bool :=
       match j.getObjVal? "ops" with
@@ -91,18 +112,23 @@ def handle (j : Json) : Json :=
       match j.getObjVal? "paths" with
       | .ok _ => getNatList? j "paths"
       | .error _ => some []
-    match exp?, (getArr? j "runs").bind (fun a => a.toList.mapM parseRun), paths?, wantOps? with
-    | some exp, some runs, some paths, some wantOps =>
+    -- "init" is optional; when the key is present it must decode
+    let init? : Option FS :=
+      match j.getObjVal? "init" with
+      | .ok _ => ((getArr? j "init").bind (fun a => a.toList.mapM parseInit)).map initFS
+      | .error _ => some FS.empty
+    match exp?, (getArr? j "runs").bind (fun a => a.toList.mapM parseRun), paths?, wantOps?, init? with
+    | some exp, some runs, some paths, some wantOps, some fs0 =>
       let infos : List (Option OpsInfo) :=
-        if wantOps then opsTrace FS.empty runs else runs.map fun _ => none
-      let steps := ((traceOn exp paths FS.empty runs).zip infos).map fun ((o, tgt, tmp, all), info) =>
+        if wantOps then opsTrace fs0 runs else runs.map fun _ => none
+      let steps := ((traceOn exp paths fs0 runs).zip infos).map fun ((o, tgt, tmp, all), info) =>
         Json.mkObj ([("outcome", Json.str (outcomeStr o)), ("target", contentJson tgt), ("tmp", Json.bool tmp)] ++
           (if paths.isEmpty then [] else
             [("all", Json.arr (all.map fun (c, t) =>
               Json.mkObj [("target", contentJson c), ("tmp", Json.bool t)]).toArray)]) ++
           (if wantOps then [("ops", opsInfoJson info)] else []))
       Json.mkObj [("steps", Json.arr steps.toArray)]
-    | _, _, _, _ => badOp
+    | _, _, _, _, _ => badOp
   | _ => badOp
 
 def main : IO Unit := serve handle
